@@ -315,6 +315,10 @@ func (db *Backend) GetObject(bucketName, objectName string, rangeRequest *gofake
 			return gofakes3.KeyNotFound(objectName)
 		}
 
+		// bson.Unmarshal aliases its input for binary fields, and v is only
+		// valid for the life of the transaction:
+		v = append([]byte(nil), v...)
+
 		if err := bson.Unmarshal(v, &t); err != nil {
 			return fmt.Errorf("gofakes3: could not unmarshal object at %q/%q: %v", bucketName, objectName, err)
 		}
